@@ -14,6 +14,9 @@
     c01 t5mir <hex sexp>                     →  outside | <fn 0> || <fn 1> || …   (as `c08 mir`)
         the structured MIR of every function of the resolved program, laid out as a CFG
     c01 lir <hex text>                       →  the LIR lowering model on real MIR (see Driver/C01Lir.lean)
+    c01 lirrun <hex text> <arg>… [| <arg>…]… →  outside | m=<answer> l=<answer> [| …]
+        the semantics of Props/C01Lir on the compiler's real MIR: `main` of the MIR program run by
+        `C01Lir.mRun`, and the LIR the model makes of it run by `C01Lir.lRun`, on every tuple
     c01 dce <cfg>                            →  ok <cfg> | panic | fuel
         the Lean model of `mir/dead_code.rs` (`RotoV.Dce.dce`) on a CFG skeleton:
         <cfg> ::= <block>;<block>;…     <block> ::= <label>:<ins>,<ins>,…
@@ -268,9 +271,36 @@ def handleT5 (fns : List FnDef) (tuples : List (List String)) : String :=
             | none => "none"
       " | ".intercalate answers
 
+/-! ### `c01 lirrun`: the MIR / LIR semantics of the LIR layer on real MIR -/
+
+def handleLirRun (hexText : String) (tuples : List (List String)) : String :=
+  match unhex hexText with
+  | none => "bad-hex"
+  | some bytes =>
+    match String.fromUTF8? (ByteArray.mk bytes.toArray) with
+    | none => "bad-utf8"
+    | some text =>
+      let P := Driver.C01Lir.parseProg text
+      match C01Lir.lowerProg P with
+      | none => "outside"
+      | some L =>
+        let answers := tuples.map fun tup =>
+          match tup.mapM parseArg with
+          | none => "bad-arg"
+          | some vs =>
+            match C01Resolve.encArgs vs with
+            | none => "bad-arg"
+            | some vs' =>
+              let show1 := fun (r : Option TraceSpec.Val) => match r with
+                | some w => "ok_" ++ (showTVal w).replace " " "_"
+                | none => "none"
+              s!"m={show1 (C01Lir.mRun P 4000 "main" vs')} l={show1 (C01Lir.lRun L 4000 "main" vs')}"
+        " | ".intercalate answers
+
 def handle (args : List String) : String :=
   match args with
   | ["dce", text] => handleDce text
+  | "lirrun" :: hex :: rest => handleLirRun hex (splitTuples rest)
   | "t5" :: hex :: rest =>
     match parseProg hex with
     | none => "bad-program"
